@@ -623,7 +623,8 @@ class ContactlessFrontend(object):
                                 raise IOError(errno.ENODEV,
                                               os.strerror(errno.ENODEV))
                             self.device.turn_off_led_and_buzzer()
-                        return options['on-release'](tag)
+                        options['on-release'](tag)
+                        return True
                     else:
                         return tag
 
@@ -638,7 +639,8 @@ class ContactlessFrontend(object):
                     log.debug("connected {0}".format(llc))
                     if options['on-connect'](llc):
                         llc.run(terminate=terminate)
-                        return options['on-release'](llc)
+                        options['on-release'](llc)
+                        return True
                     else:
                         return llc
 
@@ -662,7 +664,8 @@ class ContactlessFrontend(object):
                         except nfc.clf.CommunicationError as error:
                             log.debug(error)
                             tag_rsp = None
-                    return options['on-release'](tag)
+                    options['on-release'](tag)
+                    return True
                 else:
                     return tag
 
